@@ -362,6 +362,8 @@ def check(case):
                 except ValueError:
                     out.add("C15/value/not-a-number", expr=t, name=ent.name, cell=cell, want=want)
                     continue
+                if cell.strip() in ("-0", "-0.0"):
+                    out.add("C15/value/negative-zero-shown", expr=t, name=ent.name, cell=cell)
                 if not close(val, want):
                     lv, br, ng = features(e)
                     why = ("neg-column" if ng and close(abs(val), abs(want)) and val == -want else
